@@ -44,6 +44,7 @@ func runC06(s *Sim) {
 	}
 	s.yieldDensity = Pick(t, "yield", 0, 0, 20, 200)
 	spurious := t.Bool("spurious", 1, 2)
+	slowLink := t.Bool("slow-link", 1, 3)
 	s.NewTasks(nTasks)
 	s.Start(0, y.connectOp())
 	s.Wait()
@@ -56,6 +57,18 @@ func runC06(s *Sim) {
 	n := 0
 	var answered []message.Message // responses already emitted (for duplicates)
 	s.Broker.OnEmit = func(m message.Message) { answered = append(answered, m) }
+	resumeAll := func() {
+		for _, l := range y.aliveLinks() {
+			s.mu.Lock()
+			st := l.stalled
+			s.mu.Unlock()
+			if st {
+				l.ResumeWrites()
+			}
+		}
+		s.Wait()
+		s.Harvest()
+	}
 	for step := 0; step < maxSteps; step++ {
 		var acts []Action
 		for ti := 0; ti < nTasks; ti++ {
@@ -130,6 +143,27 @@ func runC06(s *Sim) {
 		if len(s.Broker.Pend) > 0 {
 			acts = append(acts, Action{Name: "release", W: 8, Do: func() { y.releaseOne() }})
 		}
+		if slowLink {
+			// the link stops taking writes for a while (requests pile up inside Write); when it
+			// resumes, the write that was parked may be refused with a transient error while the
+			// connection stays usable
+			for _, l := range y.aliveLinks() {
+				l := l
+				s.mu.Lock()
+				st := l.stalled
+				s.mu.Unlock()
+				if !st {
+					acts = append(acts, Action{Name: "stall-writes " + l.String(), W: 1, Do: func() { l.StallWrites(); s.Stat("env.link-stalled") }})
+				} else {
+					acts = append(acts, Action{Name: "resume-writes " + l.String(), W: 3, Do: func() {
+						if l.ParkedWriters() > 0 && t.Bool("fail-parked-write", 1, 2) {
+							l.FailNextWrites(1) // the parked request is refused, not some later keepalive ping
+						}
+						l.ResumeWrites()
+					}})
+				}
+			}
+		}
 		if spurious {
 			l := y.aliveLinks()[0]
 			acts = append(acts, Action{Name: "spurious-unknown-id", W: 1, Do: func() {
@@ -156,10 +190,12 @@ func runC06(s *Sim) {
 			}
 		}
 		acts = append(acts, Action{Name: "advance", W: 3, Do: func() {
+			resumeAll() // no time passes while a link is stalled (keepalive is not the subject here)
 			y.Advance(Pick(t, "adv", time.Millisecond, 50*time.Millisecond, 500*time.Millisecond, 2*time.Second))
 		}})
 		s.Step(acts)
 	}
+	resumeAll()
 	// settle: answer everything, in tape order
 	for i := 0; i < 400 && (len(s.Broker.Pend) > 0 || s.AnyBusy()); i++ {
 		y.flushLinks()
@@ -195,6 +231,9 @@ func runC06(s *Sim) {
 			continue
 		}
 		cls := errClass(op.Err)
+		if op.Err != nil && strings.Contains(op.Err.Error(), errTransientWrite.Error()) {
+			continue // its request was refused by the link: the caller was told, nothing else to demand
+		}
 		if op.CtxKind == "cancel" && op.CancelT >= 0 && cls != "nil" && cls != "ctx-canceled" && !(r.Fail && cls == "iscp") {
 			s.Violate("C06.cancelled-caller-error", r.Kind, "%s(%s) was cancelled and returned %q (neither its own response nor its context error)", op.Name, op.Args, errString(op.Err))
 		}
